@@ -35,7 +35,14 @@ func main() {
 	noEvidence := flag.Bool("no-evidence", false, "do not write evidence/report files (selftest)")
 	goenv := flag.String("goenv", "", "comma-separated build configuration overrides for the load, e.g. GOARCH=386")
 	portdiff := flag.Bool("portdiff", false, "debug: print statement-level differences between formatter.go and the reference fmt")
+	inlineInto := flag.String("inline-into", "", "debug: write the helpers-inlined view of -repo into this directory and exit")
+	view := flag.Bool("view", false, "internal: this run analyses the helpers-inlined view (no second view, no evidence)")
 	flag.Parse()
+	if *inlineInto != "" {
+		n, err := inlineTree(*repo, *inlineInto)
+		fmt.Printf("inlined helpers in %d file(s); error: %v\n", n, err)
+		return
+	}
 	if *portdiff {
 		debugPortDiff(*repo)
 		return
@@ -128,6 +135,38 @@ func main() {
 				knownHit = append(knownHit, *o)
 			} else {
 				viol = append(viol, *o)
+			}
+		}
+		// a violation counts only if the same rule also reports on the view
+		// of the tree in which small helpers are inlined (inline.go): moving
+		// statements into a helper is the commonest behaviour-preserving edit,
+		// and a rule that merely lost sight of them must not raise an alarm
+		if len(viol) > 0 && !*view {
+			rules, why := flaggedInView(p.ID, *repo, *verif, *goenv)
+			if rules == nil {
+				c.note("helpers-inlined view not used: %s", why)
+				fmt.Printf("  note: helpers-inlined view not used: %s\n", why)
+			} else {
+				var kept []Obligation
+				dropped := map[string]int{}
+				for _, o := range viol {
+					if rules[o.Rule] {
+						kept = append(kept, o)
+					} else {
+						dropped[o.Rule]++
+						for i := range c.obls {
+							if c.obls[i].Rule == o.Rule && c.obls[i].Key == o.Key && c.obls[i].Verdict != "discharged" {
+								c.obls[i].Verdict = "discharged"
+								c.obls[i].Detail = "holds once small helpers are inlined (second view) | " + c.obls[i].Detail
+							}
+						}
+					}
+				}
+				for r, n := range dropped {
+					fmt.Printf("  note: %s reports %d construct(s) on the tree as written but nothing on the tree with small helpers inlined: the statements it looks for moved into a helper; not counted\n", r, n)
+					c.note("%s: %d report(s) on the tree as written not confirmed on the helpers-inlined view", r, n)
+				}
+				viol = kept
 			}
 		}
 		discharged := 0
@@ -226,7 +265,68 @@ func main() {
 		fmt.Printf("%s %s: files=%d obligations=%d discharged=%d known=%d violations=%d (%.1fs)\n",
 			p.ID, *tier, w.NumFiles, len(c.obls), discharged, len(knownHit), len(viol), time.Since(t1).Seconds()+loadS)
 	}
+	cleanupView()
 	os.Exit(exit)
+}
+
+var (
+	viewDir   string
+	viewBuilt bool
+	viewWhy   string
+)
+
+func cleanupView() {
+	if viewDir != "" {
+		_ = os.RemoveAll(viewDir)
+	}
+}
+
+// flaggedInView builds (once) the helpers-inlined view of repo and runs this
+// binary on it for one property; returns the rules that report there, or nil
+// and the reason when the view cannot be used (nothing to inline, the view
+// does not build, the child run is unreadable): the violations then stand.
+func flaggedInView(prop, repo, verif, goenv string) (map[string]bool, string) {
+	if !viewBuilt {
+		viewBuilt = true
+		dir, err := os.MkdirTemp("", "tengo-view-")
+		if err != nil {
+			viewWhy = err.Error()
+		} else {
+			viewDir = dir
+			n, err := inlineTree(repo, dir)
+			switch {
+			case err != nil:
+				viewWhy = "inlining failed: " + err.Error()
+			case n == 0:
+				viewWhy = "no helper to inline: the view is the tree as written"
+			}
+		}
+	}
+	if viewWhy != "" {
+		return nil, viewWhy
+	}
+	args := []string{"-prop", prop, "-tier", "quick", "-repo", viewDir, "-verif", verif, "-no-evidence", "-view"}
+	if goenv != "" {
+		args = append(args, "-goenv", goenv)
+	}
+	out, _ := exec.Command(os.Args[0], args...).Output()
+	rules := map[string]bool{}
+	seen := false
+	for _, ln := range strings.Split(string(out), "\n") {
+		if reAltSum.MatchString(ln) {
+			seen = true
+		}
+		if m := reAltViol.FindStringSubmatch(ln); m != nil {
+			rules[m[1]] = true
+		}
+		if strings.HasPrefix(ln, "ERROR:") {
+			return nil, "the view cannot be analysed: " + ln
+		}
+	}
+	if !seen {
+		return nil, "the run on the view produced no summary"
+	}
+	return rules, ""
 }
 
 // altConfigs are the additional build configurations of the thorough tier.
